@@ -42,7 +42,7 @@ class Contract:
                  locals=None, ghost_modifies=(), decreases=None, loop_all=None, closure=None,
                  waive=(), havoc_stmts=(), dyn_call_ghost=None, ghost_calls=(), exit_post=(),
                  valid_schema=False, raise_post=(), rely=None, call_pre=None, start_at=None, coroutine=False, budget=1,
-                 assumed_ensures=(), class_invariants=(), decreases_when=None, never_raises=(),
+                 assumed_ensures=(), class_invariants=(), decreases_when=None, never_raises=(), modifies_maps=False,
                  field_invariants=None):
         self.target = target
         self.requires = list(requires)
@@ -76,6 +76,7 @@ class Contract:
             # read (an invariant of the linked structure; its writers must re-establish it)
         self.never_raises = list(never_raises)   # classes that must not escape even though a blanket
                                                  # `raises Exception` (user callables) is declared
+        self.modifies_maps = modifies_maps   # the callee stores into dicts of the map heap
         self.decreases_when = decreases_when   # clause over the caller's entry parameters: the
             # recursion variant is claimed only for recursive calls made when it holds
         self.class_invariants = list(class_invariants)   # invariants of objects reachable from the
@@ -130,6 +131,8 @@ class World:
         maps.install(self)
         refs.install(self)
         hof.install(self)
+        from . import namesets
+        namesets.install(self)
 
     # ---- sources ---------------------------------------------------------------------
     def load_module(self, modname):
@@ -652,6 +655,17 @@ class World:
                 if q.endswith("." + name) and (con.ghost_modifies or con.ghost_calls):
                     out |= set(con.ghost_modifies) | set(con.ghost_calls)
         return out
+
+    def callee_modifies_maps(self, it, calls):
+        for c in calls:
+            f = c.func
+            name = f.attr if isinstance(f, ast.Attribute) else (f.id if isinstance(f, ast.Name) else None)
+            if name is None:
+                continue
+            for q, con in self.contracts.items():
+                if q.endswith("." + name) and getattr(con, "modifies_maps", False):
+                    return True
+        return False
 
     def mutated_lists(self, it, calls):
         out = set()
